@@ -41,6 +41,10 @@ struct RecAlloc : TestMemoryAllocator {
     size_t n_out = 0, n_alloc = 0, n_free = 0;
     bool quarantine = false;                     // keep returned *handed-out* buffers readable until the end of the case
     bool bad = false; std::string badmsg;
+    // re-entrancy: an allocator beneath the cache may itself build strings, i.e. request / release buffers of the same cache
+    // from inside alloc_memory / free_memory (tracing or accounting allocators do)
+    std::function<void()> hook; int depth = 0, maxdepth = 0; bool allow = false;
+    void reenter() { if (allow && hook && depth < maxdepth) { depth++; hook(); depth--; } }
     RecAlloc() : TestMemoryAllocator("verif underlying allocator", "malloc", "free") {}
     char* alloc_memory(size_t size, const char*, size_t) CPPUTEST_OVERRIDE {
         char* p = (char*)malloc(size ? size : 1);
@@ -48,6 +52,7 @@ struct RecAlloc : TestMemoryAllocator {
         recs.push_back(Rec{p, size, true, false, 0});
         by_ptr[p] = recs.size() - 1;
         n_out++; n_alloc++;
+        reenter();
         return p;
     }
     void free_memory(char* memory, size_t size, const char*, size_t) CPPUTEST_OVERRIDE {
@@ -68,6 +73,7 @@ struct RecAlloc : TestMemoryAllocator {
             free(rc.p);
             rc.p = NULLPTR;
         }
+        reenter();
     }
     // end of case: the cache must not have written into memory it had already given back
     bool quarantine_intact() const {
@@ -102,9 +108,10 @@ size_t gen_size(Reader& r) {
 size_t size_in_class(Reader& r, int c) { return cls_lo(c) + r.below((uint32_t)(cls_hi(c) - cls_lo(c) + 1)); }
 
 enum { LIVE, RELEASED, GONE };
+const char* KEY_REENTRANT_UNCACHED = "C18:reentrant-uncached-request-drops-block";
 struct Handle { char* p; size_t req; int cls; size_t rec; int state; char fill; uint64_t seq; };
 
-struct Ctx { Reader* r; int rc; bool nontrivial; std::string desc; CaptureOutput* out; bool adaptor; bool global; bool fixture; };
+struct Ctx { Reader* r; int rc; bool nontrivial; std::string desc; CaptureOutput* out; bool adaptor; bool global; bool fixture; int reentrant; };
 
 void fill_buffer(char* p, size_t n, char f) { if (n) { memset(p, f, n - 1); p[n - 1] = 0; } }
 bool buffer_intact(const char* p, size_t n, char f) {
@@ -126,8 +133,24 @@ struct Direct {
     uint64_t seq = 0;
     size_t unknown = 0;
     bool alloc_since_start = false, clear_after_alloc = false;
+    size_t last_idx = 0, cur_req = 0; int nested_rc = 0; bool in_alloc = false, saw_nested_uncached = false; int uncached_in_progress = 0;
+    struct NoReentry { RecAlloc& a; bool was; explicit NoReentry(RecAlloc& x) : a(x), was(x.allow) { a.allow = false; } ~NoReentry() { a.allow = was; } };
 
-    explicit Direct(Ctx& cc) : c(cc), r(*cc.r) { rec.quarantine = true; }
+    explicit Direct(Ctx& cc) : c(cc), r(*cc.r) { rec.quarantine = true; H.reserve(2048); }
+    // called from inside the recording allocator while the cache is in the middle of an alloc / release: an ordinary request
+    // (of the size being served, or any size) happens at that point; it is kept for a later release step or released at once
+    void reenter() {
+        if (nested_rc || H.size() + 4 > H.capacity() || r.below(3) != 0) return;
+        size_t s = r.flag() ? cur_req : gen_size(r);
+        // known finding: an uncached request made while the cache is obtaining an uncached block drops off the uncached list
+        if (uncached_in_progress > 0 && s > 256) { if (verif::known(KEY_REENTRANT_UNCACHED)) s %= 257; else saw_nested_uncached = true; }
+        verif::cls(rec.depth >= 2 ? "nested:request-depth-2" : "nested:request");
+        c.nontrivial = true; c.desc += "<";
+        int e = op_alloc(s);
+        if (e == 0 && r.flag()) { verif::cls("nested:released-at-once"); e = op_release(last_idx, H[last_idx].req, "nested-release"); }
+        c.desc += ">";
+        if (e) nested_rc = e;
+    }
     ~Direct() { for (char* f : foreign) free(f); }
 
     char* do_alloc(size_t s) { return ad ? ad->alloc_memory(s, __FILE__, __LINE__) : cache.alloc(s); }
@@ -152,7 +175,11 @@ struct Direct {
         if (on_boundary(s)) { c.nontrivial = true; verif::cls("nt:boundary-size"); }
         if (clear_after_alloc) { c.nontrivial = true; verif::cls("nt:clear-between-allocations"); clear_after_alloc = false; }
         alloc_since_start = true;
+        size_t outer_req = cur_req; bool outer_in = in_alloc; cur_req = s; in_alloc = true;
+        if (s > 256) uncached_in_progress++;
         char* p = do_alloc(s);
+        if (s > 256) uncached_in_progress--;
+        cur_req = outer_req; in_alloc = outer_in;
         c.desc += sfmt("a(%zu);", s);
         std::string ctx = sfmt("alloc(%zu)", s);
         V_CHECK(p != NULLPTR, "C18:alloc-returned-null", "alloc(%zu) returned NULL", s);
@@ -168,6 +195,7 @@ struct Direct {
             V_CHECK(h.cls == cls_of(s), "C18:reused-for-other-class", "buffer created for size class %d (first request) reused for a request of %zu bytes (class %d)", h.cls, s, cls_of(s));
             verif::cls("alloc:reuse");
             h.req = s; h.state = LIVE; h.fill = (char)('a' + seq % 26); h.seq = ++seq;
+            last_idx = hi->second;
             fill_buffer(p, s, h.fill);
         } else {
             verif::cls("alloc:fresh");
@@ -176,6 +204,7 @@ struct Direct {
             h.seq = ++seq;
             fill_buffer(p, s, h.fill);
             hidx[p] = H.size();
+            last_idx = H.size();
             H.push_back(h);
         }
         return check_books(ctx.c_str());
@@ -190,7 +219,10 @@ struct Direct {
         std::string ctx = sfmt("%s(#%zu req=%zu, size=%zu)", what, idx, h.req, size);
         c.desc += sfmt("d(#%zu,%zu);", idx, size);
         size_t frees_before = rec.n_free;
+        bool outer_in = in_alloc; in_alloc = false;
+        if (h.cls == 5) h.state = GONE;              // being handed back: a request nested in that call must not see it as in use
         do_dealloc(h.p, size);
+        in_alloc = outer_in;
         if (h.cls < 5) {
             h.state = RELEASED;
             V_CHECK(rec.recs[h.rec].outstanding, "C18:cached-block-not-kept", "released buffer of class %d went straight back to the underlying allocator [%s]", h.cls, ctx.c_str());
@@ -227,6 +259,7 @@ struct Direct {
         return 0;
     }
     int op_clear_cache() {
+        NoReentry quiet(rec);                      // no requests are generated while the cache is being emptied
         verif::cls("op:clearCache");
         if (alloc_since_start) clear_after_alloc = true;
         c.desc += "clearCache;";
@@ -240,6 +273,7 @@ struct Direct {
         return check_books("clearCache");
     }
     int op_clear_all(const char* what) {
+        NoReentry quiet(rec);
         verif::cls("op:clearAll");
         if (alloc_since_start) clear_after_alloc = true;
         c.desc += "clearAll;";
@@ -300,18 +334,25 @@ struct Direct {
             else if (kind == 12) e = op_clear_cache();
             else if (kind == 13) e = op_has_free(gen_size(r));
             else { if (r.below(4) == 0) e = op_clear_all("clearAllIncludingCurrentlyUsedMemory"); else e = op_has_free(BOUND[r.below(5)]); }
+            if (e == 0) e = nested_rc;
             if (e) return e;
         }
         return 0;
     }
 
     int run() {
+        if (c.reentrant) { rec.maxdepth = c.reentrant; rec.allow = true; rec.hook = [this]() { reenter(); }; verif::cls("mode:allocator-beneath-re-enters-the-cache"); c.desc += sfmt("reentrant%d:", c.reentrant); }
         if (c.adaptor) ad = new SimpleStringCacheAllocator(cache, &rec); else cache.setAllocator(&rec);
         int rc = ops();
         if (rc == 0) rc = op_clear_all("the final clearAllIncludingCurrentlyUsedMemory");
         else cache.clearAllIncludingCurrentlyUsedMemory();
         if (rc == 0) rc = check_warnings("the whole history");
         if (rc == 0 && !rec.quarantine_intact()) rc = verif::fail("C18:wrote-into-returned-memory", "memory already handed back to the underlying allocator was written afterwards");
+        rec.allow = false;
+        if (rc && saw_nested_uncached && (verif::g_fail_sig == "C18:not-returned-after-clear-all" || verif::g_fail_sig.find("unknown-release-warning") != std::string::npos)) {
+            std::string m = verif::g_fail_msg;
+            verif::fail(KEY_REENTRANT_UNCACHED, "an uncached request made from inside the allocator beneath the cache while the cache was obtaining an uncached block was dropped from the cache's books: %s", m.c_str());
+        }
         delete ad; ad = NULLPTR;                   // resets the cache's allocator; ~SimpleStringInternalCache frees its class table with the default allocator
         return rc;
     }
@@ -471,10 +512,11 @@ extern "C" void verif_init(void) { verif::install_fake_time(); }
 extern "C" int verif_case(const uint8_t* data, size_t size) {
     Reader r(data, size);
     CaptureOutput out;
-    Ctx c{&r, 0, false, "", &out, false, false, false};
+    Ctx c{&r, 0, false, "", &out, false, false, false, 0};
     uint32_t mode = r.below(8);
     c.global = mode >= 6;
     c.fixture = mode == 7;
+    c.reentrant = mode == 2 || mode == 5 ? 1 : mode == 3 ? 2 : 0;   // modes 0, 1, 4 keep the meaning they have in the corpus
     c.adaptor = mode == 4 || mode == 5;
     verif::cls(c.fixture ? "mode:global-cache-fixture-output" : c.global ? "mode:global-cache" : c.adaptor ? "mode:adaptor" : "mode:direct");
     c.desc = c.fixture ? "global+fixture:" : c.global ? "global:" : c.adaptor ? "adaptor:" : "direct:";
@@ -495,4 +537,15 @@ extern "C" int verif_case(const uint8_t* data, size_t size) {
     verif::note_case(c.nontrivial, r.h, [&] { return c.desc; });
     return rc;
 }
-extern "C" int verif_known_repro(const char*) { return -1; }
+extern "C" int verif_known_repro(const char* key) {
+    if (std::string(key) != KEY_REENTRANT_UNCACHED) return -1;
+    // the allocator beneath requests 300 bytes from the cache while the cache obtains the bookkeeping node for a 300-byte request
+    struct Re : RecAlloc { SimpleStringInternalCache* cache; char* nested = NULLPTR; bool done = false;
+        char* alloc_memory(size_t size, const char* f, size_t l) CPPUTEST_OVERRIDE { char* p = RecAlloc::alloc_memory(size, f, l); if (!done) { done = true; nested = cache->alloc(300); } return p; } } rec;
+    SimpleStringInternalCache cache;
+    rec.cache = &cache;
+    cache.setAllocator(&rec);
+    cache.alloc(300);
+    cache.clearAllIncludingCurrentlyUsedMemory();
+    return rec.n_out != 0 ? 1 : 0;
+}
